@@ -9,6 +9,11 @@ package ice
 //
 // ops (tokens after "agent"):
 //   new <cfgA> <cfgB|->        cfg = k=v,...: lite max disc fail ka ci hw sw pw rw (ms) renom ucp blk=a+b tb u p tcp (1 = tcp4/tcp6 among the agent's network types)
+//     auto=<ms>: WithAutomaticRenomination(ms) (0 = the default interval of 3 s); independent of renom=1, which gives the
+//     agent a COUNTER as its nomination-value generator (1, 2, 3, ... - the values the automatic check issues; an explicit
+//     `renom` op substitutes its own value for that one call and does not move the counter).
+//   digest: every pair ends with :t<current round-trip time in ns>/<time of the last matched response, ms|->;
+//     every agent ends with ;ar=<lastRenominationTime, ms|->/<values drawn from the counter so far>.
 //   addlocal  <A|B> <ty> <net> <addr> <prio> <rel|->      addremote <A|B> <ty> <net> <addr> <prio> <rel|-> [form]
 //     form (default 0): spelling of the address literal the remote candidate is signalled with: 0 = canonical,
 //     1 = another literal of the same address (udp4: IPv4-mapped "::ffff:10.0.0.3"; udp6: expanded "fd00:0:0:0:0:0:0:3").
@@ -36,6 +41,7 @@ import (
 	"strconv"
 	"strings"
 	"sync"
+	"sync/atomic"
 	"testing"
 	"testing/synctest"
 	"time"
@@ -300,6 +306,7 @@ type vAgentH struct {
 	ntid    int
 	started bool
 	closed  bool
+	nomCtr  uint32 // values drawn so far from the counter generator handed to WithRenomination
 }
 
 type vSession struct {
@@ -406,8 +413,14 @@ func (s *vSession) newAgent(letter, cfg string) (*vAgentH, error) {
 	if vNomAttr != DefaultNominationAttribute {
 		opts = append(opts, WithNominationAttribute(uint16(vNomAttr)))
 	}
+	h := &vAgentH{letter: letter, tids: map[[stun.TransactionIDSize]byte]string{}}
 	if m["renom"] == "1" {
-		opts = append(opts, WithRenomination(func() uint32 { return 0 }))
+		// a counter, like DefaultNominationValueGenerator (called on the agent's task loop only)
+		opts = append(opts, WithRenomination(func() uint32 { h.nomCtr++; return h.nomCtr }))
+	}
+	if v, ok := m["auto"]; ok {
+		n, _ := strconv.Atoi(v)
+		opts = append(opts, WithAutomaticRenomination(time.Duration(n)*time.Millisecond))
 	}
 	a, err := newAgentFromConfig(c, opts...)
 	if err != nil {
@@ -415,7 +428,7 @@ func (s *vSession) newAgent(letter, cfg string) (*vAgentH, error) {
 	}
 	tb, _ := strconv.ParseUint(m["tb"], 10, 64)
 	a.tieBreaker = tb
-	h := &vAgentH{letter: letter, a: a, tids: map[[stun.TransactionIDSize]byte]string{}}
+	h.a = a
 	s.pwds[m["p"]] = true
 	if err := a.OnConnectionStateChange(func(st ConnectionState) { h.mu.Lock(); h.cs = append(h.cs, st.String()); h.mu.Unlock() }); err != nil {
 		return nil, err
@@ -720,7 +733,9 @@ func (s *vSession) digest(h *vAgentH) string {
 	st, ctl, sel := "", 0, "-"
 	var pairs, rem, loc []string
 	pend := 0
+	ar := "-/0"
 	snapshot := func() {
+		ar = fmt.Sprintf("%s/%d", vMsSince(s.epoch, a.lastRenominationTime), h.nomCtr)
 		st = a.connectionState.String()
 		if a.isControlling.Load() {
 			ctl = 1
@@ -742,10 +757,11 @@ func (s *vSession) digest(h *vAgentH) string {
 				if p.deferredNominationValue != nil {
 					dv = fmt.Sprint(*p.deferredNominationValue)
 				}
-				pairs = append(pairs, fmt.Sprintf("%d:%d>%d:%d:%s:n%dd%dv%s:c%d:p%d:q%d/%d/%d/%d:k%d/%d/%d/%d", p.id,
+				pairs = append(pairs, fmt.Sprintf("%d:%d>%d:%d:%s:n%dd%dv%s:c%d:p%d:q%d/%d/%d/%d:k%d/%d/%d/%d:t%d/%s", p.id,
 					vCandID(p.Local), vCandID(p.Remote), p.Remote.Type(), stc, n, d, dv, p.bindingRequestCount, p.priority(),
 					p.RequestsSent(), p.RequestsReceived(), p.ResponsesSent(), p.ResponsesReceived(),
-					p.PacketsSent(), p.PacketsReceived(), p.BytesSent(), p.BytesReceived()))
+					p.PacketsSent(), p.PacketsReceived(), p.BytesSent(), p.BytesReceived(),
+					atomic.LoadInt64(&p.currentRoundTripTime), vMsSince(s.epoch, p.LastResponseReceivedAt())))
 			}
 		}
 		for ni, nt := range vNetTypes {
@@ -782,9 +798,9 @@ func (s *vSession) digest(h *vAgentH) string {
 	if h.conn != nil {
 		bs, br = h.conn.BytesSent(), h.conn.BytesReceived()
 	}
-	fmt.Fprintf(&b, "st=%s;ctl=%d;sel=%s;P[%s];R[%s];L[%s];cs[%s];sp[%s];ca[%s];bs=%d;br=%d;pend=%d", st, ctl, sel,
+	fmt.Fprintf(&b, "st=%s;ctl=%d;sel=%s;P[%s];R[%s];L[%s];cs[%s];sp[%s];ca[%s];bs=%d;br=%d;pend=%d;ar=%s", st, ctl, sel,
 		strings.Join(pairs, ","), strings.Join(rem, ","), strings.Join(loc, ","),
-		strings.Join(cs, ","), strings.Join(sp, ","), strings.Join(ca, ","), bs, br, pend)
+		strings.Join(cs, ","), strings.Join(sp, ","), strings.Join(ca, ","), bs, br, pend, ar)
 	return b.String()
 }
 
@@ -1117,7 +1133,10 @@ func (s *vSession) exec(t []string) string {
 		var res string
 		v := uint32(vAtoi(t[4]))
 		var l, rc Candidate
+		var counterGen func() uint32
 		_ = h.a.loop.Run(h.a.loop, func(context.Context) {
+			// this call's value is the op's; the agent's own generator (the counter, or nil) is put back afterwards
+			counterGen = h.a.nominationValueGenerator
 			h.a.nominationValueGenerator = func() uint32 { return v }
 			for _, cs := range h.a.localCandidates {
 				for _, c := range cs {
@@ -1133,17 +1152,25 @@ func (s *vSession) exec(t []string) string {
 			if ri := vAtoi(t[3]); ri < len(rs) {
 				rc = rs[ri]
 			}
-			if !h.a.isControlling.Load() {
-				res = "err:notcontrolling"
-			} else if !h.a.enableRenomination {
-				res = "err:notenabled"
-			} else if l == nil || rc == nil {
-				res = "err:notfound"
+			// the API's own gates decide whenever both candidates exist; only a candidate the agent does not hold
+			// (nil cannot be handed to the API) is answered here, in the API's order of tests
+			if l == nil || rc == nil {
+				if !h.a.isControlling.Load() {
+					res = "err:notcontrolling"
+				} else if !h.a.enableRenomination {
+					res = "err:notenabled"
+				} else {
+					res = "err:notfound"
+				}
 			}
 		})
 		if res == "" && !h.closed {
 			// the public API (it runs on the task loop itself)
 			res = vErr(h.a.RenominateCandidate(l, rc))
+		}
+		_ = h.a.loop.Run(h.a.loop, func(context.Context) { h.a.nominationValueGenerator = counterGen })
+		if h.closed {
+			h.a.nominationValueGenerator = counterGen
 		}
 		synctest.Wait()
 		if h.closed && res == "" {
